@@ -44,7 +44,7 @@ ASSUMPTIONS = [
     'repetition counts are small positive integers in generated cases (the theorems are for all counts)',
 ]
 MANIFEST = {
-    'level_text': 'Proof: 61 unbounded theorems over an executable Coq model of waveforms.py: vectorised sampler = pointwise '
+    'level_text': 'Proof: 63 unbounded theorems over an executable Coq model of waveforms.py: vectorised sampler = pointwise '
                   'meaning on every sorted grid (all 11 classes); constant_value sound on [0,duration) for all classes; '
                   '__eq__ => same behaviour; reversed()/double reversal laws; totality REFUTED on the unchanged code '
                   '(sequence/repetition at t=duration, reversal around them, chained parallel+linear KeyError) and proved under '
@@ -57,8 +57,9 @@ MANIFEST = {
                   'forwarded channel - refuted without that guard); code meaning = DESIGN 4.4 denotation for leaf-only reversal '
                   'incl. transformations, and for reversal anywhere (mirror law) away from the junctions an executable parity '
                   'guard excludes. Not proved (only tested through the denotational oracle): the composed statement over '
-                  'construction recipes (refuted unguarded at t=0 below reversed sequences; every single constructor incl. the '
-                  'well-formedness of its result is proved). get_subset_for_channels is proved for all classes under a guard that '
+                  'construction recipes with transformation / reversal / get_subset nodes (refuted unguarded at t=0 below reversed '
+                  'sequences; every single constructor incl. the well-formedness of its result is proved, and the composed '
+                  'statement is proved for all recipes without such nodes). get_subset_for_channels is proved for all classes under a guard that '
                   'excludes ReversedWaveform at its local time 0 (refuted there), '
                   'mirror law with transformations below a reversal. The model (incl. a state machine for the '
                   'TransformingWaveform cache) is tied to /repo by an exact correspondence check, an independent denotation '
@@ -1217,7 +1218,11 @@ def classify(case, obs):
             return 'C08-reversed-composite-junction' if has_kind(r, REV) else 'C08-nan-at-duration'
         if has_kind(r, ('trans',)) and _hist_inplace(case):
             return 'C08-trafo-cache-stale-after-inplace-times'
-    if k == 'sample' and 'built' in obs and F(obs['built']['dur']) in [F(t) for t in case['grid']] and _table_final_triple(r):
+    # a from_table table with three entries at ITS final time: any grid point on a multiple of 1/4 can be that time
+    # (sequence offsets, reversal map t = 0 to the end of a part); "off" grids never are
+    if k == 'sample' and 'built' in obs and _table_final_triple(r) and any(F(t) % Q4 == 0 for t in case['grid']):
+        return 'C08-table-dedup-final-triple'
+    if k == 'hist' and _table_final_triple(r) and _hist_hits_boundary(case):
         return 'C08-table-dedup-final-triple'
     if k in ('sample', 'hist') and _has_parallel_before_linear(r) and _has_keyerror(obs):
         return 'C08-chain-parallel-linear-keyerror'
